@@ -179,8 +179,14 @@ def sound_ref_cases(rng, n):
     out = []
     exp_cfg = [(cat.X_MOD, "e"), (cat.X_COMPAT, "b"), (cat.X_ALL, "b"), (cat.X_MOD | cat.X_ALIAS | cat.X_RANGE, "e")]
     imp_cfg = [(cat.X_MOD | cat.X_MODES, "e"), (cat.X_COMPAT, "b"), (cat.X_ALL, "b")]
+    comp_cfg = [(cat.X_MODES, "e"), (cat.X_MODES | cat.X_MOD, "e"), (cat.X_COMPAT, "b"), (cat.X_ALL, "b"),
+                (cat.X_MODES | cat.X_ALIAS | cat.X_INLINE, "e")]
     for i in range(n):
-        if i % 3 == 2:
+        if i % 4 == 3:
+            ext, conv = comp_cfg[(i // 4) % len(comp_cfg)]
+            sp = cat.wf_components_block(rng, ext)
+            prof = "components-mode-list"
+        elif i % 3 == 2:
             ext, conv = imp_cfg[(i // 3) % len(imp_cfg)]
             sp = cat.wf_implicit_reference(rng, ext)
             prof = "implicit-reference-repeating-modifiers"
@@ -272,7 +278,7 @@ def run(rep, tier, seed):
 
     corpus = corpus_cases()
     sound = [c for c in corpus if c["kind"] == "sound"] + sound_cases(rng, 6000 if quick else 60000)
-    sound += sound_ref_cases(rng, 1500 if quick else 15000)
+    sound += sound_ref_cases(rng, 2400 if quick else 20000)
     catalog = [c for c in corpus if c["kind"] == "catalog"] + catalog_cases(rng, 30 if quick else 220)
     doubles = double_cases(rng, 1600 if quick else 16000)
     bases = []
@@ -288,7 +294,7 @@ def run(rep, tier, seed):
     hits = []
     panics = 0
     counts = {"sound_cases": 0, "sound_with_notice": 0, "base_cases": 0, "catalog_cases": 0, "catalog_found": 0,
-              "sound_ref_cases": 0, "double_cases": 0, "double_analysis_first": 0, "double_parse_first": 0,
+              "sound_ref_cases": 0, "sound_components_cases": 0, "double_cases": 0, "double_analysis_first": 0, "double_parse_first": 0,
               "double_parse_error_found": 0}
     double_pairs = set()
     per_entry = {}
@@ -321,7 +327,7 @@ def run(rep, tier, seed):
         if c["kind"] in ("sound", "base"):
             counts["sound_cases" if c["kind"] == "sound" else "base_cases"] += 1
             if c.get("pair"):
-                counts["sound_ref_cases"] += 1
+                counts["sound_ref_cases" if c["profile"] != "components-mode-list" else "sound_components_cases"] += 1
             if any(is_notice(d, tb) for d in j["diags"]):
                 counts["sound_with_notice"] += 1
             for v in mon_sound(j, tb, c["old_style"]):
@@ -403,7 +409,8 @@ def run(rep, tier, seed):
                         "input": c["text"], "parse_construct_bytes": [c["a"], c["b"]],
                         "analysis_construct_bytes": [c["aa"], c["ab"]], "placement": c["tags"],
                         "diags": [[d[0], d[1], d[2]] for d in j.get("diags", [])]})
-    for c in sound[len(corpus):len(corpus) + 2] + [c for c in sound if c.get("pair")][:2]:
+    for c in sound[len(corpus):len(corpus) + 2] + [c for c in sound if c.get("pair")][:2] + \
+            [c for c in sound if c.get("profile") == "components-mode-list"][:1]:
         j = res[(c["text"], c["ext"], c["conv"])]
         samples.append({"well_formed": c["profile"], "reference_pair": c.get("pair"), "ext": c["ext"],
                         "conv": c["conv"], "input": c["text"],
@@ -419,7 +426,9 @@ def run(rep, tier, seed):
                 "safe line start (blocks) or as the front matter, under each enabling configuration; the base "
                 "recipe of each splice is itself checked to be diagnostic-free; well-formed references that repeat "
                 "the inheritable modifiers of their definition (explicit, and implicit in `[duplicate]: ref` mode) "
-                "are spliced the same way and must be diagnostic-free; double splices put an analysis-stage and a "
+                "are spliced the same way and must be diagnostic-free, and so are components-mode lists ([mode]/"
+                "[define]: components/ingredients) separated by non-alphanumeric punctuation, then switched back; "
+                "double splices put an analysis-stage and a "
                 "parse-stage construct into one recipe (analysis one first, and the converse as control): no output, "
                 "only Parse-stage diagnostics, the parse error on its construct; distinct_nontrivial = distinct "
                 "spliced texts + distinct well-formed texts containing a component"
@@ -427,7 +436,8 @@ def run(rep, tier, seed):
         "samples": samples,
         "soundness": {"recipes": counts["sound_cases"], "splice_bases": counts["base_cases"],
                       "with_deprecation_notice": counts["sound_with_notice"],
-                      "references_repeating_inherited_modifiers": counts["sound_ref_cases"]},
+                      "references_repeating_inherited_modifiers": counts["sound_ref_cases"],
+                      "components_mode_lists_with_punctuation": counts["sound_components_cases"]},
         "completeness": {"cases": counts["catalog_cases"], "diagnosed_on_the_construct": counts["catalog_found"],
                          "classes_covered": sorted(per_class), "classes_missing": missing,
                          "per_class": per_class, "placements": placements},
